@@ -67,7 +67,7 @@ NO_MODEL = {"midmul", "mod_ps", "maxpy_s", "shift", "getEntry", "setEntry", "val
 # accessors are checked on such vectors by the "unnormalised-operands" stream.
 STRICT_NORMAL = {"setdegree", "assign", "monomial", "reverse", "subin", "div_s", "mul", "stdmul", "karamul", "mulin", "sqr",
                  "div", "modin", "gcd", "gcdext", "invmod", "invmodunit", "lcm", "pow", "powmod", "invmodpowx",
-                 "maxpyin", "maxpyin_s", "axmy", "axmy_s", "pdivmod", "pmod", "mul_trunc", "midmul", "power_compose", "modpowx",
+                 "maxpyin", "axmy", "pdivmod", "pmod", "mul_trunc", "midmul", "power_compose", "modpowx",
                  "div_sp", "mod_ps"}
 
 
@@ -245,7 +245,7 @@ def spec_check(op, p, args, out):
     if op in ("sub_s", "subin_s"):
         return eq(psub(a[0], [a[1]], p), klass="unnormalised-zero-operand" if (a[0] and not norm(a[0])) else "value")
     if op == "s_sub":
-        return eq(psub([a[0]], a[1], p), klass="value" if not a[1] else "nonempty-polynomial")
+        return eq(psub([a[0]], a[1], p), klass="empty-polynomial" if not a[1] else "value")
     if op == "mul_s":
         return eq(pscale(a[0], a[1], p))
     if op == "div_s":
@@ -551,6 +551,10 @@ def gen_case(rng, variant, op, sig, p, thr, big):
     sp = gen_special(rng, variant, op, p, thr, big)
     if sp is not None:
         return (variant, op, p, sp)
+    if op in ("s_sub", "add_s", "sub_s", "addin_s", "subin_s") and not variant.endswith(".Dzero") and rng.chance(1, 6):
+        # the empty vector as polynomial operand of a scalar form
+        s = rng.choice([1, p - 1, rng.below(p)])
+        return (variant, op, p, [s, []] if op == "s_sub" else [[], s])
     if variant.endswith(".Dzero"):
         return (variant, op, p, [[0], rng.choice([1, p - 1, 1 + rng.below(p - 1)])])
     heavy = op in ("gcd", "gcdext", "invmod", "invmodunit", "lcm", "powmod", "pow", "pdivmod", "pmod")
@@ -582,6 +586,8 @@ def gen_case(rng, variant, op, sig, p, thr, big):
             A = pmul(A, B, p) if A else A
         elif k == 2 and B:
             B[-1] = 1                                                     # monic divisor
+        if op == "gcdext" and not A and not B:
+            B = [1 + rng.below(p - 1)]                                   # gcd(0,0) with cofactors: inverse of 0, excluded
         if op in ("invmod", "invmodunit"):
             n2 = max(n2, 2); B = rand_poly(rng, p, n2); A = rand_poly(rng, p, max(n1, 1))
             g = pgcd(A, B, p)
